@@ -17,6 +17,7 @@ use std::path::{Path, PathBuf};
 
 use crate::config::{StructureConfig, UNLIMITED};
 use crate::error::Result;
+use crate::output::path::normalize_for_matching;
 
 use super::explain::{
     MatchStatus, StructureExplanation, StructureRuleCandidate, StructureRuleMatch,
@@ -98,6 +99,8 @@ impl StructureChecker {
     fn resolve_limits(&self, path: &Path) -> StructureLimits {
         // Check rules (glob patterns) - last match wins
         // Iterate in reverse to find the last matching rule
+        // Scopes are written relative to the project root: match the normalised path
+        let path = &normalize_for_matching(path);
         for rule in self.rules.iter().rev() {
             if rule.matcher.is_match(path) {
                 return StructureLimits {
@@ -340,9 +343,9 @@ impl StructureChecker {
                 .iter()
                 .filter(|rule| match rule {
                     CompiledSiblingRule::Directed { dir_matcher, .. } => {
-                        dir_matcher.is_match(parent)
+                        dir_matcher.is_match(normalize_for_matching(parent))
                     }
-                    CompiledSiblingRule::Group { dir_matcher, .. } => dir_matcher.is_match(parent),
+                    CompiledSiblingRule::Group { dir_matcher, .. } => dir_matcher.is_match(normalize_for_matching(parent)),
                 })
                 .collect();
 
@@ -531,6 +534,7 @@ impl StructureChecker {
         let mut matched_rule = StructureRuleMatch::Default;
         let mut found_match = false;
         let mut override_reason = None;
+        let matched_path = &normalize_for_matching(path);
 
         // Check rules (last match wins for consistency with content rules)
         // First find the index of the last matching rule
@@ -539,12 +543,12 @@ impl StructureChecker {
             .iter()
             .enumerate()
             .rev()
-            .find(|(_, rule)| rule.matcher.is_match(path))
+            .find(|(_, rule)| rule.matcher.is_match(matched_path))
             .map(|(i, _)| i);
 
         // Then iterate forward to build rule chain with correct statuses
         for (i, rule) in self.rules.iter().enumerate() {
-            let matches = rule.matcher.is_match(path);
+            let matches = rule.matcher.is_match(matched_path);
             let is_last_match = last_matching_rule_idx == Some(i);
             let status = if is_last_match && !found_match {
                 found_match = true;
